@@ -12,27 +12,7 @@ namespace Wee.F32
 
 /-! ## oddness -/
 
-theorem round32_neg (q : Rat) : round32 (-q) = - round32 q := by
-  unfold round32
-  by_cases h0 : q = 0
-  · subst h0; simp
-  · have h0' : ¬ (-q = 0) := by
-      intro h; apply h0; have := congrArg (fun x => -x) h; simpa [Rat.neg_neg] using this
-    simp only [h0, h0', if_false]
-    by_cases hneg : q < 0
-    · have : ¬ (-q < 0) := by
-        intro h
-        have h1 : -(0:Rat) < -(-q) := Rat.neg_lt_neg h
-        rw [Rat.neg_neg] at h1
-        have h2 : (0:Rat) < q := by simpa using h1
-        exact Rat.lt_irrefl (Std.lt_trans hneg h2)
-      simp [hneg, this, Rat.neg_neg]
-    · have hle : 0 ≤ q := Rat.not_lt.1 hneg
-      have hpos : 0 < q := Rat.lt_iff_le_and_ne.2 ⟨hle, fun h => h0 h.symm⟩
-      have : -q < 0 := by
-        have h1 : -q < -(0:Rat) := Rat.neg_lt_neg hpos
-        simpa using h1
-      simp [hneg, this]
+-- `round32_neg` now lives in `Wee/Model/F32.lean` (it is needed by the `@[csimp]` fast path there)
 
 theorem mul_neg_left (a b : Rat) : mul (-a) b = - mul a b := by
   unfold mul; rw [Rat.neg_mul, round32_neg]
@@ -108,285 +88,12 @@ theorem toI32_bounds {q : Rat} {N : Int} (hN : N ≤ 2147483647) (hl : -(N : Rat
   have := trunc_bounds hl hu
   rw [toI32_eq_trunc (by omega) (by omega)]; exact this
 
-/-! ## `pow2`, `ilog2` -/
+/-! ## `pow2`, `ilog2`, rounding never crosses a small integer
 
-theorem pow2_nat (n : Nat) : pow2 (n : Int) = ((2 ^ n : Nat) : Rat) := by
-  unfold pow2; simp
+The lemmas `pow2_nat … ilog2_spec … rne_cases … roundPos_le … round32_bounds … round32_natCast`,
+`round32_intCast` (same names, same namespace `Wee.F32`) now live in `Wee/Model/F32.lean`, because the
+proved-equal compiled fast path of `round32` (`@[csimp]`) rests on them. -/
 
-theorem pow2_pos (k : Int) : 0 < pow2 k := by
-  unfold pow2
-  split
-  · exact Rat.natCast_pos.2 (Nat.pow_pos (by decide))
-  · have h : (0:Rat) < ((2 ^ (-k).toNat : Nat) : Rat) := Rat.natCast_pos.2 (Nat.pow_pos (by decide))
-    rw [Rat.div_def, Rat.one_mul]; exact Rat.inv_pos.2 h
-
-theorem pow2_succ (k : Int) : pow2 (k + 1) = 2 * pow2 k := by
-  unfold pow2
-  by_cases h : k ≥ 0
-  · have h1 : k + 1 ≥ 0 := by omega
-    have : (k + 1).toNat = k.toNat + 1 := by omega
-    simp only [h, h1, if_true, this, Nat.pow_succ, Rat.natCast_mul]
-    grind
-  · by_cases h1 : k + 1 ≥ 0
-    · have hk : k = -1 := by omega
-      subst hk; simp; grind
-    · have : (-k).toNat = (-(k+1)).toNat + 1 := by omega
-      simp only [h, h1, if_false, this, Nat.pow_succ, Rat.natCast_mul]
-      have hp : (0:Rat) < ((2 ^ (-(k + 1)).toNat : Nat) : Rat) := Rat.natCast_pos.2 (Nat.pow_pos (by decide))
-      generalize ((2 ^ (-(k + 1)).toNat : Nat) : Rat) = x at hp
-      simp
-      grind
-
-/-- `pow2 (k + n) = 2^n * pow2 k` -/
-theorem pow2_add_nat (k : Int) (n : Nat) : pow2 (k + n) = ((2 ^ n : Nat) : Rat) * pow2 k := by
-  induction n with
-  | zero => simp
-  | succ n ih =>
-    have : k + ((n + 1 : Nat) : Int) = (k + n) + 1 := by omega
-    rw [this, pow2_succ, ih, Nat.pow_succ, Rat.natCast_mul]; grind
-
-theorem pow2_le_of_le {k j : Int} (h : k ≤ j) : pow2 k ≤ pow2 j := by
-  obtain ⟨n, rfl⟩ : ∃ n : Nat, j = k + n := ⟨(j - k).toNat, by omega⟩
-  rw [pow2_add_nat]
-  have h1 : (1 : Rat) ≤ ((2 ^ n : Nat) : Rat) := by
-    have : (1 : Nat) ≤ 2 ^ n := Nat.pow_pos (by decide)
-    simpa using Rat.natCast_le_natCast.2 this
-  have := Rat.mul_le_mul_of_nonneg_right h1 (Rat.le_of_lt (pow2_pos k))
-  simpa using this
-
-theorem pow2_lt_of_lt {k j : Int} (h : k < j) : pow2 k < pow2 j := by
-  have h1 : pow2 (k + 1) ≤ pow2 j := pow2_le_of_le (by omega)
-  have h2 := pow2_pos k
-  rw [pow2_succ] at h1
-  grind
-
-theorem lt_of_pow2_lt {k j : Int} (h : pow2 k < pow2 j) : k < j := by
-  apply Decidable.byContradiction; intro hn
-  have := pow2_le_of_le (Int.not_lt.1 hn)
-  grind
-
-/-- specification of `ilog2` -/
-theorem ilog2_spec {q : Rat} (hq : 0 < q) : pow2 (ilog2 q) ≤ q ∧ q < pow2 (ilog2 q + 1) := by
-  have hnum : 0 < q.num := by
-    have := (Rat.lt_iff 0 q).1 hq; simpa using this
-  have hden : 0 < q.den := Nat.pos_of_ne_zero q.den_nz
-  -- n, d as naturals
-  obtain ⟨n, hn⟩ : ∃ n : Nat, q.num = n := ⟨q.num.toNat, by omega⟩
-  have hn0 : n ≠ 0 := by omega
-  have hqd : q * (q.den : Rat) = (n : Rat) := by
-    have h1 : q = (q.num : Rat) / (q.den : Rat) := by
-      rw [← Rat.mkRat_eq_div, Rat.mkRat_self]
-    have h2 : (q.den : Rat) ≠ 0 := by simpa using q.den_nz
-    have h3 := Rat.div_mul_cancel (a := (q.num : Rat)) h2
-    rw [← h1, hn] at h3; exact h3
-  -- log2 bounds
-  have hn1 := Nat.log2_self_le hn0
-  have hn2 := Nat.lt_log2_self (n := n)
-  have hd1 := Nat.log2_self_le q.den_nz
-  have hd2 := Nat.lt_log2_self (n := q.den)
-  have e1 : q.num.toNat = n := by omega
-  generalize hln : n.log2 = ln at *
-  generalize hld : q.den.log2 = ld at *
-  -- cast to Rat
-  have cn1 : ((2 ^ ln : Nat) : Rat) ≤ (n : Rat) := Rat.natCast_le_natCast.2 hn1
-  have cn2 : (n : Rat) < ((2 ^ (ln + 1) : Nat) : Rat) := Rat.natCast_lt_natCast.2 hn2
-  have cd1 : ((2 ^ ld : Nat) : Rat) ≤ (q.den : Rat) := Rat.natCast_le_natCast.2 hd1
-  have cd2 : (q.den : Rat) < ((2 ^ (ld + 1) : Nat) : Rat) := Rat.natCast_lt_natCast.2 hd2
-  have pd : (0 : Rat) < ((2 ^ ld : Nat) : Rat) := Rat.natCast_pos.2 (Nat.pow_pos (by decide))
-  -- pow2 (ln - ld) * 2^ld = 2^ln
-  have key : pow2 ((ln : Int) - (ld : Int)) * ((2 ^ ld : Nat) : Rat) = ((2 ^ ln : Nat) : Rat) := by
-    have := pow2_add_nat ((ln : Int) - (ld : Int)) ld
-    rw [show (ln : Int) - (ld : Int) + (ld : Int) = (ln : Int) by omega, pow2_nat] at this
-    rw [this]; grind
-  -- q < pow2 (e + 1)
-  have hup : q < pow2 ((ln : Int) - (ld : Int) + 1) := by
-    apply Rat.lt_of_mul_lt_mul_right (c := ((2 ^ ld : Nat) : Rat)) _ (Rat.le_of_lt pd)
-    rw [pow2_succ, Rat.mul_assoc, key]
-    have h1 : q * ((2 ^ ld : Nat) : Rat) ≤ q * (q.den : Rat) :=
-      Rat.mul_le_mul_of_nonneg_left cd1 (Rat.le_of_lt hq)
-    rw [Nat.pow_succ, Rat.natCast_mul] at cn2
-    grind
-  -- pow2 (e - 1) ≤ q
-  have hlo : pow2 ((ln : Int) - (ld : Int) - 1) ≤ q := by
-    apply Rat.le_of_mul_le_mul_right (c := ((2 ^ (ld+1) : Nat) : Rat)) _ (Rat.natCast_pos.2 (Nat.pow_pos (by decide)))
-    have h0 : pow2 ((ln : Int) - (ld : Int)) = 2 * pow2 ((ln : Int) - (ld : Int) - 1) := by
-      rw [← pow2_succ]; congr 1; omega
-    have h1 : q * (q.den : Rat) ≤ q * ((2 ^ (ld + 1) : Nat) : Rat) :=
-      Rat.mul_le_mul_of_nonneg_left (Rat.le_of_lt cd2) (Rat.le_of_lt hq)
-    rw [Nat.pow_succ, Rat.natCast_mul] at h1 ⊢
-    rw [h0] at key
-    rw [hqd] at h1
-    clear hup cd1 cd2 hd1 hd2 hn1 hn2 cn2 hqd h0 pd
-    generalize pow2 ((ln : Int) - (ld : Int) - 1) = P at *
-    generalize ((2 ^ ld : Nat) : Rat) = A at *
-    generalize ((2 ^ ln : Nat) : Rat) = L at *
-    have h2 : ((2 : Nat) : Rat) = 2 := by simp
-    rw [h2] at h1 ⊢
-    have : P * (A * 2) = L := by grind
-    grind
-  unfold ilog2
-  simp only [e1, hln, hld]
-  split
-  · rename_i h
-    refine ⟨hlo, ?_⟩
-    rw [show (ln : Int) - (ld : Int) - 1 + 1 = (ln : Int) - (ld : Int) by omega]; exact h
-  · rename_i h
-    exact ⟨Rat.not_lt.1 h, hup⟩
-/-! ## rounding never crosses a small integer -/
-
-theorem rne_cases (x : Rat) : rne x = x.floor ∨ (rne x = x.floor + 1 ∧ (x.floor : Rat) < x) := by
-  unfold rne
-  simp only
-  split
-  · left; rfl
-  · rename_i h
-    have hx : (x.floor : Rat) < x := by grind
-    split
-    · right; exact ⟨rfl, hx⟩
-    · split
-      · left; rfl
-      · right; exact ⟨rfl, hx⟩
-
-theorem rne_le {x : Rat} {M : Int} (h : x ≤ (M : Rat)) : rne x ≤ M := by
-  have hf : x.floor ≤ M := by
-    have := Rat.floor_monotone h; rwa [Rat.floor_intCast] at this
-  rcases rne_cases x with h1 | ⟨h1, h2⟩
-  · omega
-  · rw [h1]
-    have : x.floor < M := by
-      apply Decidable.byContradiction; intro hn
-      have he : x.floor = M := by omega
-      rw [he] at h2; grind
-    omega
-
-theorem le_rne {x : Rat} {M : Int} (h : (M : Rat) ≤ x) : M ≤ rne x := by
-  have hf : M ≤ x.floor := Rat.le_floor_iff.2 h
-  rcases rne_cases x with h1 | ⟨h1, _⟩ <;> omega
-
-theorem rne_intCast (M : Int) : rne (M : Rat) = M := by
-  have h1 := rne_le (x := (M : Rat)) (M := M) Rat.le_refl
-  have h2 := le_rne (x := (M : Rat)) (M := M) Rat.le_refl
-  omega
-
-/-- the `ulp` used by `roundPos q` -/
-def ulpOf (q : Rat) : Rat := pow2 ((if ilog2 q < -126 then -126 else ilog2 q) - 23)
-
-theorem roundPos_def (q : Rat) : roundPos q = ((rne (q / ulpOf q) : Int) : Rat) * ulpOf q := rfl
-
-theorem ulpOf_pos (q : Rat) : 0 < ulpOf q := pow2_pos _
-
-/-- below `2^24` the unit in the last place divides 1 -/
-theorem ulpOf_dvd_one {q : Rat} (hq : 0 < q) (h24 : q < 16777216) :
-    ∃ j : Nat, ulpOf q * ((2 ^ j : Nat) : Rat) = 1 := by
-  have hs := ilog2_spec hq
-  have h1 : pow2 (ilog2 q) < pow2 24 := by
-    have : pow2 24 = 16777216 := by
-      have := pow2_nat 24; simpa using this
-    rw [this]; grind
-  have h2 : ilog2 q < 24 := lt_of_pow2_lt h1
-  unfold ulpOf
-  generalize he : (if ilog2 q < -126 then -126 else ilog2 q) = e'
-  have he' : e' ≤ 23 := by split at he <;> omega
-  refine ⟨(23 - e').toNat, ?_⟩
-  have := pow2_add_nat (e' - 23) (23 - e').toNat
-  rw [show e' - 23 + ((23 - e').toNat : Int) = ((0 : Nat) : Int) by omega, pow2_nat] at this
-  rw [Rat.mul_comm, ← this]; simp
-
-/-- rounding never crosses an integer below `2^24` (upper side) -/
-theorem roundPos_le {q : Rat} {N : Nat} (hq : 0 < q) (hN : N < 16777216) (h : q ≤ (N : Rat)) :
-    roundPos q ≤ (N : Rat) := by
-  have h24 : q < 16777216 := by
-    have : (N : Rat) < ((16777216 : Nat) : Rat) := Rat.natCast_lt_natCast.2 hN
-    simp at this; grind
-  obtain ⟨j, hj⟩ := ulpOf_dvd_one hq h24
-  have hu := ulpOf_pos q
-  rw [roundPos_def]
-  generalize ulpOf q = u at *
-  have hinv : u⁻¹ = ((2 ^ j : Nat) : Rat) := Rat.inv_eq_of_mul_eq_one hj
-  have hp : (0 : Rat) ≤ ((2 ^ j : Nat) : Rat) := Rat.natCast_nonneg
-  have hM : q / u ≤ (((N * 2 ^ j : Nat) : Int) : Rat) := by
-    rw [Rat.div_def, hinv, Rat.intCast_natCast, Rat.natCast_mul]
-    exact Rat.mul_le_mul_of_nonneg_right h hp
-  have h1 := Rat.intCast_le_intCast.2 (rne_le hM)
-  have h2 := Rat.mul_le_mul_of_nonneg_right h1 (Rat.le_of_lt hu)
-  rw [Rat.intCast_natCast, Rat.natCast_mul] at h2
-  generalize ((2 ^ j : Nat) : Rat) = P at *
-  rw [Rat.mul_assoc, Rat.mul_comm P u, hj, Rat.mul_one] at h2
-  exact h2
-
-/-- rounding never crosses an integer below `2^24` (lower side) -/
-theorem le_roundPos {q : Rat} {N : Nat} (hq : 0 < q) (h24 : q < 16777216) (h : (N : Rat) ≤ q) :
-    (N : Rat) ≤ roundPos q := by
-  obtain ⟨j, hj⟩ := ulpOf_dvd_one hq h24
-  have hu := ulpOf_pos q
-  rw [roundPos_def]
-  generalize ulpOf q = u at *
-  have hinv : u⁻¹ = ((2 ^ j : Nat) : Rat) := Rat.inv_eq_of_mul_eq_one hj
-  have hp : (0 : Rat) ≤ ((2 ^ j : Nat) : Rat) := Rat.natCast_nonneg
-  have hM : (((N * 2 ^ j : Nat) : Int) : Rat) ≤ q / u := by
-    rw [Rat.div_def, hinv, Rat.intCast_natCast, Rat.natCast_mul]
-    exact Rat.mul_le_mul_of_nonneg_right h hp
-  have h1 := Rat.intCast_le_intCast.2 (le_rne hM)
-  have h2 := Rat.mul_le_mul_of_nonneg_right h1 (Rat.le_of_lt hu)
-  rw [Rat.intCast_natCast, Rat.natCast_mul] at h2
-  generalize ((2 ^ j : Nat) : Rat) = P at *
-  rw [Rat.mul_assoc, Rat.mul_comm P u, hj, Rat.mul_one] at h2
-  exact h2
-
-theorem roundPos_nonneg {q : Rat} (hq : 0 < q) : 0 ≤ roundPos q := by
-  rw [roundPos_def]
-  have hu := ulpOf_pos q
-  have hx : ((0 : Int) : Rat) ≤ q / ulpOf q := by
-    rw [Rat.div_def]
-    exact Rat.le_of_lt (Rat.mul_pos hq (Rat.inv_pos.2 hu))
-  have := Rat.intCast_le_intCast.2 (le_rne hx)
-  exact Rat.mul_nonneg (by simpa using this) (Rat.le_of_lt hu)
-
-/-- **integer-bound lemma**: `|q| ≤ N < 2^24` ⇒ `|round32 q| ≤ N` -/
-theorem round32_bounds {q : Rat} {N : Nat} (hN : N < 16777216) (hl : -(N : Rat) ≤ q) (hu : q ≤ (N : Rat)) :
-    -(N : Rat) ≤ round32 q ∧ round32 q ≤ (N : Rat) := by
-  have hN0 : (0 : Rat) ≤ (N : Rat) := Rat.natCast_nonneg
-  unfold round32
-  split
-  · grind
-  · rename_i h0
-    split
-    · rename_i hneg
-      have hp : 0 < -q := by grind
-      have h1 := roundPos_le hp hN (by grind)
-      have h2 := roundPos_nonneg hp
-      grind
-    · rename_i hneg
-      have hp : 0 < q := by grind
-      have h1 := roundPos_le hp hN hu
-      have h2 := roundPos_nonneg hp
-      grind
-
-/-- integers below `2^24` are representable -/
-theorem round32_natCast {N : Nat} (hN : N < 16777216) : round32 (N : Rat) = (N : Rat) := by
-  unfold round32
-  split
-  · rename_i h; rw [h]
-  · rename_i h0
-    have hN0 : (0 : Rat) ≤ (N : Rat) := Rat.natCast_nonneg
-    have hp : 0 < (N : Rat) := by grind
-    have hneg : ¬ (N : Rat) < 0 := by grind
-    rw [if_neg hneg]
-    have h24 : (N : Rat) < 16777216 := by
-      have : (N : Rat) < ((16777216 : Nat) : Rat) := Rat.natCast_lt_natCast.2 hN
-      simpa using this
-    have h1 := roundPos_le hp hN Rat.le_refl
-    have h2 := le_roundPos hp h24 Rat.le_refl
-    exact Rat.le_antisymm h1 h2
-
-theorem round32_intCast {i : Int} (h1 : -16777216 < i) (h2 : i < 16777216) : round32 (i : Rat) = (i : Rat) := by
-  by_cases h : 0 ≤ i
-  · obtain ⟨n, rfl⟩ : ∃ n : Nat, i = n := ⟨i.toNat, by omega⟩
-    exact round32_natCast (by omega)
-  · obtain ⟨n, rfl⟩ : ∃ n : Nat, i = -(n : Int) := ⟨(-i).toNat, by omega⟩
-    rw [Rat.intCast_neg, round32_neg]
-    congr 1
-    exact round32_natCast (by omega)
 
 theorem ofInt_exact {i : Int} (h1 : -16777216 < i) (h2 : i < 16777216) : ofInt i = (i : Rat) :=
   round32_intCast h1 h2
